@@ -60,42 +60,87 @@ Proof.
   destruct v; try reflexivity; cbn [map parse]; destruct (truthy _); reflexivity.
 Qed.
 
-Lemma fd_item_PT dd calc d kids seen :
-  fd_item dd calc (PT d kids) seen =
+Lemma fd_item_PT dd calc d kids seen used :
+  fd_item dd calc (PT d kids) seen used =
   match dd d with
   | inr e => inr e
   | inl i0 =>
-      match did_for calc (dget k_data_id d) i0 with
+      match (if did_early (dget k_data_id d) then did_for calc (dget k_data_id d) i0 else inl (DInt 0)) with
       | inr e => inr e
-      | inl dv =>
-          if existsb (did_eqb dv) seen then inr E_UNIQUE
-          else match fd_loop dd calc kids [] with
-               | inr e => inr e
-               | inl ch => inl (T 0%nat (mk_info i0 dv) ch)
-               end
+      | inl _ =>
+          match nid_check (dget k_node_id d) used with
+          | inr e => inr e
+          | inl nid =>
+              match did_for calc (dget k_data_id d) i0 with
+              | inr e => inr e
+              | inl dv =>
+                  if existsb (did_eqb dv) seen then inr E_UNIQUE
+                  else match fd_loop dd calc kids [] (used ++ opt_list nid) with
+                       | inr e => inr e
+                       | inl ch => inl (T 0%nat (mk_info i0 dv nid) ch)
+                       end
+              end
+          end
       end
   end.
 Proof.
   cbn [fd_item].
   destruct (dd d) as [i0|e]; [|reflexivity].
+  destruct (if did_early (dget k_data_id d) then did_for calc (dget k_data_id d) i0 else inl (DInt 0)) as [x0|e]; [|reflexivity].
+  destruct (nid_check (dget k_node_id d) used) as [nid|e]; [|reflexivity].
   destruct (did_for calc (dget k_data_id d) i0) as [dv|e]; [|reflexivity].
   destruct (existsb (did_eqb dv) seen); [reflexivity|].
-  assert (E : forall l s,
-             (fix loop (l : list pt) (seen' : list did) {struct l} : res (list rt) :=
+  assert (E : forall l s u,
+             (fix loop (l : list pt) (seen' : list did) (used' : list Z) {struct l} : res (list rt) :=
                 match l with
                 | [] => inl []
                 | x :: xs =>
-                    match fd_item dd calc x seen' with
+                    match fd_item dd calc x seen' used' with
                     | inr e => inr e
-                    | inl t => match loop xs (seen' ++ [rdid t]) with
+                    | inl t => match loop xs (seen' ++ [rdid t]) (used' ++ nids x) with
                                | inr e => inr e
                                | inl ts => inl (t :: ts)
                                end
                     end
-                end) l s = fd_loop dd calc l s).
-  { induction l as [|x xs IH]; intros s; [reflexivity|].
-    cbn [fd_loop]. destruct (fd_item dd calc x s) as [t|e]; [|reflexivity]. now rewrite IH. }
+                end) l s u = fd_loop dd calc l s u).
+  { induction l as [|x xs IH]; intros s u; [reflexivity|].
+    cbn [fd_loop]. destruct (fd_item dd calc x s u) as [t|e]; [|reflexivity]. now rewrite IH. }
   now rewrite E.
+Qed.
+
+(* what the success of one item says about its entries *)
+Lemma fd_item_PT_ok dd calc d kids seen used t :
+  fd_item dd calc (PT d kids) seen used = inl t ->
+  exists i0 dv nid ch,
+    dd d = inl i0 /\ did_for calc (dget k_data_id d) i0 = inl dv /\
+    nid_check (dget k_node_id d) used = inl nid /\
+    existsb (did_eqb dv) seen = false /\
+    fd_loop dd calc kids [] (used ++ opt_list nid) = inl ch /\
+    t = T 0%nat (mk_info i0 dv nid) ch.
+Proof.
+  rewrite fd_item_PT. intros E.
+  destruct (dd d) as [i0|e] eqn:E1; [|discriminate].
+  destruct (if did_early (dget k_data_id d) then did_for calc (dget k_data_id d) i0 else inl (DInt 0)) as [x0|e]; [|discriminate].
+  destruct (nid_check (dget k_node_id d) used) as [nid|e] eqn:E3; [|discriminate].
+  destruct (did_for calc (dget k_data_id d) i0) as [dv|e] eqn:E2; [|discriminate].
+  destruct (existsb (did_eqb dv) seen) eqn:Ex; [discriminate|].
+  destruct (fd_loop dd calc kids [] (used ++ opt_list nid)) as [ch|e] eqn:El; [|discriminate].
+  injection E as <-. exists i0, dv, nid, ch.
+  refine (conj eq_refl (conj E2 (conj eq_refl (conj Ex (conj El eq_refl))))).
+Qed.
+
+(* ... and conversely *)
+Lemma fd_item_PT_intro dd calc d kids seen used i0 dv nid :
+  dd d = inl i0 -> did_for calc (dget k_data_id d) i0 = inl dv ->
+  nid_check (dget k_node_id d) used = inl nid -> existsb (did_eqb dv) seen = false ->
+  fd_item dd calc (PT d kids) seen used =
+  match fd_loop dd calc kids [] (used ++ opt_list nid) with
+  | inr e => inr e
+  | inl ch => inl (T 0%nat (mk_info i0 dv nid) ch)
+  end.
+Proof.
+  intros E1 E2 E3 E4. rewrite fd_item_PT, E1, E2, E3, E4.
+  destruct (did_early (dget k_data_id d)); reflexivity.
 Qed.
 
 (* ------------------------------------------------------------------ *)
@@ -120,13 +165,14 @@ Definition enc_name (i : info) : jv := JStr (i_name i).
 (* what the theorems need of a serialisation mapper *)
 Definition sm_ok (enc : info -> jv) (sm : smapper) : Prop :=
   forall i res,
-    dget k_data res = Some (JStr (i_name i)) -> dget k_children res = None ->
+    dget k_data res = Some (JStr (i_name i)) -> dget k_children res = None -> dget k_node_id res = None ->
     dget k_data (sm i res) = Some (enc i) /\
     dget k_data_id (sm i res) = dget k_data_id res /\
-    dget k_children (sm i res) = None.
+    dget k_children (sm i res) = None /\
+    dget k_node_id (sm i res) = None.
 
 Lemma sm_none_ok : sm_ok enc_name sm_none.
-Proof. intros i res H1 H2. unfold sm_none, enc_name. auto. Qed.
+Proof. intros i res H1 H2 H3. unfold sm_none, enc_name. auto. Qed.
 
 Lemma has_custom_did_true i : has_custom_did i = true <-> custom_id i.
 Proof.
@@ -156,23 +202,25 @@ Proof. reflexivity. Qed.
 Lemma head_dict_spec enc sm i : sm_ok enc sm ->
   dget k_data (head_dict sm i) = Some (enc i) /\
   dget k_data_id (head_dict sm i) = (if has_custom_did i then Some (jv_of_did (i_did i)) else None) /\
-  dget k_children (head_dict sm i) = None.
+  dget k_children (head_dict sm i) = None /\
+  dget k_node_id (head_dict sm i) = None.
 Proof.
   intros Hsm. unfold head_dict.
   destruct (has_custom_did i).
-  - destruct (Hsm i (dset k_data_id (jv_of_did (i_did i)) [(k_data, JStr (i_name i))])) as (A1 & A2 & A3).
+  - destruct (Hsm i (dset k_data_id (jv_of_did (i_did i)) [(k_data, JStr (i_name i))])) as (A1 & A2 & A3 & A4).
     + rewrite dget_dset_other by exact k_data_neq_id. reflexivity.
     + rewrite dget_dset_other by exact k_ch_neq_id. reflexivity.
-    + refine (conj A1 (conj _ A3)). rewrite A2. apply dget_dset_same.
-  - destruct (Hsm i [(k_data, JStr (i_name i))]) as (A1 & A2 & A3); [reflexivity|reflexivity|].
-    refine (conj A1 (conj _ A3)). rewrite A2. reflexivity.
+    + rewrite dget_dset_other by discriminate. reflexivity.
+    + refine (conj A1 (conj _ (conj A3 A4))). rewrite A2. apply dget_dset_same.
+  - destruct (Hsm i [(k_data, JStr (i_name i))]) as (A1 & A2 & A3 & A4); [reflexivity|reflexivity|reflexivity|].
+    refine (conj A1 (conj _ (conj A3 A4))). rewrite A2. reflexivity.
 Qed.
 
 Lemma to_dict_mirrors enc sm : sm_ok enc sm -> forall t, mirrors enc t (to_dict sm t).
 Proof.
   intros Hsm. induction t as [id i ch IH] using rt_ind'.
   rewrite to_dict_unfold.
-  destruct (head_dict_spec enc sm i Hsm) as (A1 & A2 & A3).
+  destruct (head_dict_spec enc sm i Hsm) as (A1 & A2 & A3 & _).
   assert (F2 : Forall2 (mirrors enc) ch (map (to_dict sm) ch)).
   { clear -IH. induction IH as [|x xs Hx _ IHxs]; cbn [map]; constructor; assumption. }
   destruct ch as [|c cs].
@@ -282,18 +330,20 @@ Lemma to_dict_dict_spec enc sm id i ch : sm_ok enc sm ->
             dget k_data D = Some (enc i) /\
             dget k_data_id D = (if has_custom_did i then Some (jv_of_did (i_did i)) else None) /\
             kids_of D = map (to_dict sm) ch /\
-            own_entries (head_dict sm i) D.
+            own_entries (head_dict sm i) D /\
+            dget k_node_id D = None.
 Proof.
-  intros Hsm. rewrite to_dict_unfold. destruct (head_dict_spec enc sm i Hsm) as (A1 & A2 & A3).
+  intros Hsm. rewrite to_dict_unfold. destruct (head_dict_spec enc sm i Hsm) as (A1 & A2 & A3 & A4).
   destruct ch as [|c cs].
-  - exists (head_dict sm i). refine (conj eq_refl (conj A1 (conj A2 (conj _ _)))).
+  - exists (head_dict sm i). refine (conj eq_refl (conj A1 (conj A2 (conj _ (conj _ A4))))).
     + unfold kids_of. now rewrite A3.
     + intros k _. reflexivity.
-  - eexists. split; [reflexivity|]. refine (conj _ (conj _ (conj _ _))).
+  - eexists. split; [reflexivity|]. refine (conj _ (conj _ (conj _ (conj _ _)))).
     + rewrite dget_dset_other by exact k_data_neq_ch. exact A1.
     + rewrite dget_dset_other by exact k_id_neq_ch. exact A2.
     + unfold kids_of. now rewrite dget_dset_same.
     + intros k Hk. now apply dget_dset_other.
+    + rewrite dget_dset_other by discriminate. exact A4.
 Qed.
 
 Lemma iso_rdid a b : iso a b -> rdid b = rdid a.
@@ -305,57 +355,61 @@ Section RoundTrip.
 
   Definition rt_goal (t : rt) : Prop :=
     sibuniq t -> allinfo (inverse_on sm dd) t ->
-    forall seen, ~ In (rdid t) seen ->
-    exists t', fd_item dd default_did (parse (to_dict sm t)) seen = inl t' /\ iso t t'.
+    forall seen used, ~ In (rdid t) seen ->
+    exists t', fd_item dd default_did (parse (to_dict sm t)) seen used = inl t' /\ iso t t' /\
+               nids (parse (to_dict sm t)) = [].
 
   Lemma rt_loop : forall ch, Forall rt_goal ch ->
     NoDup (map rdid ch) -> Forall sibuniq ch -> Forall (allinfo (inverse_on sm dd)) ch ->
-    forall seen, (forall x, In x (map rdid ch) -> ~ In x seen) ->
-    exists ch', fd_loop dd default_did (map parse (map (to_dict sm) ch)) seen = inl ch' /\ Forall2 iso ch ch'.
+    forall seen used, (forall x, In x (map rdid ch) -> ~ In x seen) ->
+    exists ch', fd_loop dd default_did (map parse (map (to_dict sm) ch)) seen used = inl ch' /\ Forall2 iso ch ch' /\
+                flat_map nids (map parse (map (to_dict sm) ch)) = [].
   Proof.
-    induction ch as [|x xs IH]; intros HP ND SU AI seen Hs.
-    - exists []. split; [reflexivity|constructor].
+    induction ch as [|x xs IH]; intros HP ND SU AI seen used Hs.
+    - exists []. split; [reflexivity|split; [constructor|reflexivity]].
     - inversion HP as [|x0 xs0 Px Pxs]; subst. inversion ND as [|d0 l0 Nin ND']; subst.
       inversion SU as [|x1 xs1 Sx Sxs]; subst. inversion AI as [|x2 xs2 Ax Axs]; subst.
-      destruct (Px Sx Ax seen) as (t' & E1 & I1).
+      destruct (Px Sx Ax seen used) as (t' & E1 & I1 & N1).
       { apply Hs. now left. }
-      destruct (IH Pxs ND' Sxs Axs (seen ++ [rdid x])) as (ts & E2 & I2).
+      destruct (IH Pxs ND' Sxs Axs (seen ++ [rdid x]) used) as (ts & E2 & I2 & N2).
       { intros y Hy Hin. apply in_app_or in Hin as [Hin|[<-|[]]].
         - apply (Hs y); [now right|assumption].
         - contradiction. }
-      exists (t' :: ts). split; [|constructor; assumption].
-      cbn [map fd_loop]. rewrite E1. rewrite (iso_rdid _ _ I1). now rewrite E2.
+      exists (t' :: ts). split; [|split; [constructor; assumption|]].
+      + cbn [map fd_loop]. rewrite E1, N1, app_nil_r. rewrite (iso_rdid _ _ I1). now rewrite E2.
+      + cbn [map flat_map]. now rewrite N1, N2.
   Qed.
 
   Lemma rt_item : forall t, rt_goal t.
   Proof.
-    induction t as [id i ch IH] using rt_ind'. intros SU AI seen Nin.
+    induction t as [id i ch IH] using rt_ind'. intros SU AI seen used Nin.
     inversion SU as [id0 i0 ch0 ND SUch]; subst. inversion AI as [id1 i1 ch1 Hinv AIch]; subst.
-    destruct (to_dict_dict_spec enc sm id i ch Hsm) as (D & ED & D1 & D2 & D3 & D4).
+    destruct (to_dict_dict_spec enc sm id i ch Hsm) as (D & ED & D1 & D2 & D3 & D4 & D5).
     destruct (Hinv D D4) as (i' & Ei & SD).
-    rewrite ED, parse_dict, fd_item_PT, Ei, D2, D3.
-    assert (Edid : (if has_custom_did i then did_for default_did (Some (jv_of_did (i_did i))) i'
-                    else did_for default_did None i') = inl (i_did i)).
-    { destruct (has_custom_did i) eqn:C.
+    assert (Edid : did_for default_did (dget k_data_id D) i' = inl (i_did i)).
+    { rewrite D2. destruct (has_custom_did i) eqn:C.
       - apply did_for_of_did.
       - cbn [did_for]. unfold has_custom_did in C. apply orb_false_iff in C as (C1 & C2).
         apply negb_false_iff, did_eqb_eq in C2.
         destruct SD as (_ & Eh & _). unfold default_did, unhashable in *. rewrite Eh, C1, C2. reflexivity. }
-    assert (Edid' : did_for default_did (if has_custom_did i then Some (jv_of_did (i_did i)) else None) i' = inl (i_did i)).
-    { destruct (has_custom_did i); exact Edid. }
-    rewrite Edid'. change (rdid (T id i ch)) with (i_did i) in Nin. rewrite (existsb_did_false _ _ Nin).
-    destruct (rt_loop ch IH ND SUch AIch []) as (ch' & E & I); [intros x _ []|].
-    rewrite E. eexists. split; [reflexivity|].
-    constructor; try reflexivity; try assumption.
+    change (rdid (T id i ch)) with (i_did i) in Nin.
+    destruct (rt_loop ch IH ND SUch AIch [] (used ++ opt_list None)) as (ch' & E & I & N); [intros x _ []|].
+    rewrite ED, parse_dict.
+    rewrite (fd_item_PT_intro dd default_did D _ seen used i' (i_did i) None Ei Edid);
+      [|unfold nid_check; rewrite D5; reflexivity|apply existsb_did_false; exact Nin].
+    rewrite D3, E. eexists. split; [reflexivity|]. split.
+    - constructor; try reflexivity; try assumption.
+    - cbn [nids]. rewrite D5. cbn [nid_of app]. exact N.
   Qed.
 
   (* from_dict before node identities are assigned *)
   Theorem roundtrip_raw f : sibuniq_f f -> Forall (allinfo (inverse_on sm dd)) f ->
-    exists f', fd_loop dd default_did (map parse (to_dict_list sm f)) [] = inl f' /\ Forall2 iso f f'.
+    exists f', fd_loop dd default_did (map parse (to_dict_list sm f)) [] [] = inl f' /\ Forall2 iso f f'.
   Proof.
-    intros [ND SU] AI. unfold to_dict_list. apply rt_loop; try assumption.
-    - apply Forall_forall. intros t _. apply rt_item.
-    - intros x _ [].
+    intros [ND SU] AI. unfold to_dict_list.
+    destruct (rt_loop f (proj2 (Forall_forall _ _) (fun t _ => rt_item t)) ND SU AI [] []) as (f' & E & I & _);
+      [intros x _ []|].
+    exists f'. split; assumption.
   Qed.
 End RoundTrip.
 
@@ -574,20 +628,20 @@ Section Safe.
   Variables (dd : dmapper) (calc : info -> res did).
 
   Definition safe_goal (p : pt) : Prop :=
-    forall seen t, fd_item dd calc p seen = inl t -> sibuniq t /\ ~ In (rdid t) seen.
+    forall seen used t, fd_item dd calc p seen used = inl t -> sibuniq t /\ ~ In (rdid t) seen.
 
   Lemma fd_loop_safe : forall l, Forall safe_goal l ->
-    forall seen f, fd_loop dd calc l seen = inl f ->
+    forall seen used f, fd_loop dd calc l seen used = inl f ->
     NoDup (map rdid f) /\ Forall sibuniq f /\ (forall x, In x (map rdid f) -> ~ In x seen).
   Proof.
-    induction l as [|p ps IH]; intros HP seen f E.
+    induction l as [|p ps IH]; intros HP seen used f E.
     - cbn in E. injection E as <-. refine (conj (NoDup_nil _) (conj (Forall_nil _) _)). intros x [].
     - inversion HP as [|p0 ps0 Pp Pps]; subst. cbn [fd_loop] in E.
-      destruct (fd_item dd calc p seen) as [t|e] eqn:E1; [|discriminate].
-      destruct (fd_loop dd calc ps (seen ++ [rdid t])) as [ts|e] eqn:E2; [|discriminate].
+      destruct (fd_item dd calc p seen used) as [t|e] eqn:E1; [|discriminate].
+      destruct (fd_loop dd calc ps (seen ++ [rdid t]) (used ++ nids p)) as [ts|e] eqn:E2; [|discriminate].
       injection E as <-.
-      destruct (Pp seen t E1) as (S1 & N1).
-      destruct (IH Pps _ _ E2) as (ND & SU & Dis).
+      destruct (Pp seen used t E1) as (S1 & N1).
+      destruct (IH Pps _ _ _ E2) as (ND & SU & Dis).
       refine (conj _ (conj _ _)).
       + cbn [map]. constructor; [|exact ND]. intros Hin. apply (Dis _ Hin). apply in_or_app. right. now left.
       + constructor; assumption.
@@ -596,22 +650,18 @@ Section Safe.
 
   Lemma fd_item_safe : forall p, safe_goal p.
   Proof.
-    induction p as [|d kids IH] using pt_ind'; intros seen t E.
+    induction p as [|d kids IH] using pt_ind'; intros seen used t E.
     - discriminate.
-    - rewrite fd_item_PT in E.
-      destruct (dd d) as [i0|e]; [|discriminate].
-      destruct (did_for calc (dget k_data_id d) i0) as [dv|e]; [|discriminate].
-      destruct (existsb (did_eqb dv) seen) eqn:Ex; [discriminate|].
-      destruct (fd_loop dd calc kids []) as [ch|e] eqn:El; [|discriminate].
-      injection E as <-. destruct (fd_loop_safe kids IH _ _ El) as (ND & SU & _).
+    - apply fd_item_PT_ok in E as (i0 & dv & nid & ch & E1 & E2 & E3 & Ex & El & ->).
+      destruct (fd_loop_safe kids IH _ _ _ El) as (ND & SU & _).
       split; [constructor; assumption|]. apply existsb_did_false_inv. exact Ex.
   Qed.
 
   Theorem from_dict_safe next obj f : from_dict dd calc next obj = inl f -> sibuniq_f f.
   Proof.
-    unfold from_dict. destruct (fd_loop dd calc (map parse obj) []) as [f0|e] eqn:E; [|discriminate].
+    unfold from_dict. destruct (fd_loop dd calc (map parse obj) [] []) as [f0|e] eqn:E; [|discriminate].
     intros H. injection H as <-.
-    destruct (fd_loop_safe (map parse obj) (proj2 (Forall_forall _ _) (fun p _ => fd_item_safe p)) _ _ E) as (ND & SU & _).
+    destruct (fd_loop_safe (map parse obj) (proj2 (Forall_forall _ _) (fun p _ => fd_item_safe p)) _ _ _ E) as (ND & SU & _).
     destruct (renum_forest_ok f0 next) as (_ & B3 & _ & B5).
     split; [|now apply B5]. unfold rdid. rewrite <- map_map, B3, map_map. exact ND.
   Qed.
@@ -629,7 +679,7 @@ Lemma dicts_pre_t enc sm : sm_ok enc sm -> forall t,
   map head_of (pt_dicts (parse (to_dict sm t))) = map (fun x => (Some (enc (rinfo x)), opt_id (rinfo x))) (pre t).
 Proof.
   intros Hsm. induction t as [id i ch IH] using rt_ind'.
-  destruct (to_dict_dict_spec enc sm id i ch Hsm) as (D & ED & D1 & D2 & D3 & _).
+  destruct (to_dict_dict_spec enc sm id i ch Hsm) as (D & ED & D1 & D2 & D3 & _ & _).
   rewrite ED, parse_dict. cbn [pt_dicts pre map]. f_equal.
   - unfold head_of. rewrite D1, D2, opt_id_custom. reflexivity.
   - rewrite D3. clear -IH. induction IH as [|x xs Hx _ IHxs]; [reflexivity|].
@@ -671,7 +721,8 @@ Qed.
 
 (* ------------------------------------------------------------------ *)
 (* Which inputs from_dict refuses.  An item is well formed when its data can
-   be read and its data_id entry is usable; its effective id is the data_id
+   be read, its data_id entry is usable and it has no node_id entry (to_dict
+   never writes one); its effective id is the data_id
    entry or, without one, calc_data_id of the data.  For well-formed inputs:
    from_dict succeeds iff no two sibling items have one effective id, and the
    only error is UniqueConstraintError. *)
@@ -688,7 +739,8 @@ Section Refusal.
     end.
 
   Inductive wf_pt : pt -> Prop :=
-  | wf_PT : forall d kids dv, eff (PT d kids) = Some dv -> Forall wf_pt kids -> wf_pt (PT d kids).
+  | wf_PT : forall d kids dv, eff (PT d kids) = Some dv -> dget k_node_id d = None ->
+                              Forall wf_pt kids -> wf_pt (PT d kids).
 
   Inductive uniq_pt : pt -> Prop :=
   | uniq_PT : forall d kids, NoDup (map eff kids) -> Forall uniq_pt kids -> uniq_pt (PT d kids).
@@ -701,23 +753,26 @@ Section Refusal.
     intros H. injection H as <-. exists i. split; [reflexivity|exact E].
   Qed.
 
+  Lemma nid_check_none d used : dget k_node_id d = None -> nid_check (dget k_node_id d) used = inl None.
+  Proof. intros ->. reflexivity. Qed.
+
   (* success: shape of the result *)
   Definition ok_goal (p : pt) : Prop :=
-    wf_pt p -> uniq_pt p -> forall seen dv, eff p = Some dv -> ~ In dv seen ->
-    exists t, fd_item dd calc p seen = inl t /\ rdid t = dv.
+    wf_pt p -> uniq_pt p -> forall seen used dv, eff p = Some dv -> ~ In dv seen ->
+    exists t, fd_item dd calc p seen used = inl t /\ rdid t = dv.
 
   Lemma fd_loop_ok : forall l, Forall ok_goal l -> Forall wf_pt l -> Forall uniq_pt l -> NoDup (map eff l) ->
-    forall seen, (forall dv, In (Some dv) (map eff l) -> ~ In dv seen) ->
-    exists f, fd_loop dd calc l seen = inl f /\ map (fun t => Some (rdid t)) f = map eff l.
+    forall seen used, (forall dv, In (Some dv) (map eff l) -> ~ In dv seen) ->
+    exists f, fd_loop dd calc l seen used = inl f /\ map (fun t => Some (rdid t)) f = map eff l.
   Proof.
-    induction l as [|p ps IH]; intros HP WF UQ ND seen Hs.
+    induction l as [|p ps IH]; intros HP WF UQ ND seen used Hs.
     - exists []. split; reflexivity.
     - inversion HP as [|p0 ps0 Pp Pps]; subst. inversion WF as [|p1 ps1 Wp Wps]; subst.
       inversion UQ as [|p2 ps2 Up Ups]; subst. inversion ND as [|e0 l0 Nin ND']; subst.
-      inversion Wp as [d kids dv Ee Wk]; subst.
-      destruct (Pp Wp Up seen dv Ee) as (t & E1 & Et).
+      inversion Wp as [d kids dv Ee En Wk]; subst.
+      destruct (Pp Wp Up seen used dv Ee) as (t & E1 & Et).
       { apply Hs. left. exact Ee. }
-      destruct (IH Pps Wps Ups ND' (seen ++ [rdid t])) as (ts & E2 & M).
+      destruct (IH Pps Wps Ups ND' (seen ++ [rdid t]) (used ++ nids (PT d kids))) as (ts & E2 & M).
       { intros x Hx Hin. apply in_app_or in Hin as [Hin|[<-|[]]].
         - apply (Hs x); [now right|assumption].
         - apply Nin. rewrite Ee, <- Et. exact Hx. }
@@ -728,71 +783,70 @@ Section Refusal.
 
   Lemma fd_item_ok : forall p, ok_goal p.
   Proof.
-    induction p as [|d kids IH] using pt_ind'; intros WF UQ seen dv Ee Nin.
+    induction p as [|d kids IH] using pt_ind'; intros WF UQ seen used dv Ee Nin.
     - discriminate.
-    - inversion WF as [d0 k0 dv0 _ Wk]; subst. inversion UQ as [d1 k1 ND Uk]; subst.
+    - inversion WF as [d0 k0 dv0 _ En Wk]; subst. inversion UQ as [d1 k1 ND Uk]; subst.
       destruct (eff_inv _ _ _ Ee) as (i & E1 & E2).
-      rewrite fd_item_PT, E1, E2, (existsb_did_false _ _ Nin).
-      destruct (fd_loop_ok kids IH Wk Uk ND []) as (ch & E & _); [intros x _ []|].
+      rewrite (fd_item_PT_intro dd calc d kids seen used i dv None E1 E2 (nid_check_none d used En)
+                                (existsb_did_false _ _ Nin)).
+      destruct (fd_loop_ok kids IH Wk Uk ND [] (used ++ opt_list None)) as (ch & E & _); [intros x _ []|].
       rewrite E. eexists. split; reflexivity.
   Qed.
 
   (* failure: only UniqueConstraintError *)
   Definition err_goal (p : pt) : Prop :=
-    wf_pt p -> forall seen e, fd_item dd calc p seen = inr e -> e = E_UNIQUE.
+    wf_pt p -> forall seen used e, fd_item dd calc p seen used = inr e -> e = E_UNIQUE.
 
   Lemma fd_loop_err : forall l, Forall err_goal l -> Forall wf_pt l ->
-    forall seen e, fd_loop dd calc l seen = inr e -> e = E_UNIQUE.
+    forall seen used e, fd_loop dd calc l seen used = inr e -> e = E_UNIQUE.
   Proof.
-    induction l as [|p ps IH]; intros HP WF seen e E; [discriminate|].
+    induction l as [|p ps IH]; intros HP WF seen used e E; [discriminate|].
     inversion HP as [|p0 ps0 Pp Pps]; subst. inversion WF as [|p1 ps1 Wp Wps]; subst.
-    cbn [fd_loop] in E. destruct (fd_item dd calc p seen) as [t|e1] eqn:E1.
-    - destruct (fd_loop dd calc ps (seen ++ [rdid t])) as [ts|e2] eqn:E2; [discriminate|].
+    cbn [fd_loop] in E. destruct (fd_item dd calc p seen used) as [t|e1] eqn:E1.
+    - destruct (fd_loop dd calc ps (seen ++ [rdid t]) (used ++ nids p)) as [ts|e2] eqn:E2; [discriminate|].
       injection E as <-. eapply IH; eassumption.
     - injection E as <-. eapply Pp; eassumption.
   Qed.
 
   Lemma fd_item_err : forall p, err_goal p.
   Proof.
-    induction p as [|d kids IH] using pt_ind'; intros WF seen e E.
+    induction p as [|d kids IH] using pt_ind'; intros WF seen used e E.
     - inversion WF.
-    - inversion WF as [d0 k0 dv Ee Wk]; subst. destruct (eff_inv _ _ _ Ee) as (i & E1 & E2).
-      rewrite fd_item_PT, E1, E2 in E.
-      destruct (existsb (did_eqb dv) seen); [now injection E as <-|].
-      destruct (fd_loop dd calc kids []) as [ch|e1] eqn:El; [discriminate|].
-      injection E as <-. eapply fd_loop_err; eassumption.
+    - inversion WF as [d0 k0 dv Ee En Wk]; subst. destruct (eff_inv _ _ _ Ee) as (i & E1 & E2).
+      destruct (existsb (did_eqb dv) seen) eqn:Ex.
+      + rewrite fd_item_PT, E1, E2, (nid_check_none d used En), Ex in E.
+        destruct (did_early (dget k_data_id d)); now injection E as <-.
+      + rewrite (fd_item_PT_intro dd calc d kids seen used i dv None E1 E2 (nid_check_none d used En) Ex) in E.
+        destruct (fd_loop dd calc kids [] (used ++ opt_list None)) as [ch|e1] eqn:El; [discriminate|].
+        injection E as <-. eapply fd_loop_err; eassumption.
   Qed.
 
   (* success implies the input had unique sibling ids *)
   Definition conv_goal (p : pt) : Prop :=
-    forall seen t, fd_item dd calc p seen = inl t -> eff p = Some (rdid t) /\ uniq_pt p.
+    forall seen used t, fd_item dd calc p seen used = inl t -> eff p = Some (rdid t) /\ uniq_pt p.
 
   Lemma fd_loop_conv : forall l, Forall conv_goal l ->
-    forall seen f, fd_loop dd calc l seen = inl f ->
+    forall seen used f, fd_loop dd calc l seen used = inl f ->
     map eff l = map (fun t => Some (rdid t)) f /\ Forall uniq_pt l.
   Proof.
-    induction l as [|p ps IH]; intros HP seen f E.
+    induction l as [|p ps IH]; intros HP seen used f E.
     - cbn in E. injection E as <-. split; [reflexivity|constructor].
     - inversion HP as [|p0 ps0 Pp Pps]; subst. cbn [fd_loop] in E.
-      destruct (fd_item dd calc p seen) as [t|e] eqn:E1; [|discriminate].
-      destruct (fd_loop dd calc ps (seen ++ [rdid t])) as [ts|e] eqn:E2; [|discriminate].
-      injection E as <-. destruct (Pp _ _ E1) as (A1 & A2). destruct (IH Pps _ _ E2) as (B1 & B2).
+      destruct (fd_item dd calc p seen used) as [t|e] eqn:E1; [|discriminate].
+      destruct (fd_loop dd calc ps (seen ++ [rdid t]) (used ++ nids p)) as [ts|e] eqn:E2; [|discriminate].
+      injection E as <-. destruct (Pp _ _ _ E1) as (A1 & A2). destruct (IH Pps _ _ _ E2) as (B1 & B2).
       split; [cbn [map]; now rewrite A1, B1|constructor; assumption].
   Qed.
 
   Lemma fd_item_conv : forall p, conv_goal p.
   Proof.
-    induction p as [|d kids IH] using pt_ind'; intros seen t E.
+    induction p as [|d kids IH] using pt_ind'; intros seen used t E.
     - discriminate.
-    - rewrite fd_item_PT in E. cbn [eff].
-      destruct (dd d) as [i0|e]; [|discriminate].
-      destruct (did_for calc (dget k_data_id d) i0) as [dv|e]; [|discriminate].
-      destruct (existsb (did_eqb dv) seen); [discriminate|].
-      destruct (fd_loop dd calc kids []) as [ch|e] eqn:El; [|discriminate].
-      injection E as <-. split; [reflexivity|].
-      destruct (fd_loop_conv kids IH _ _ El) as (M & U).
+    - apply fd_item_PT_ok in E as (i0 & dv & nid & ch & E1 & E2 & E3 & Ex & El & ->).
+      cbn [eff]. rewrite E1, E2. split; [reflexivity|].
+      destruct (fd_loop_conv kids IH _ _ _ El) as (M & U).
       constructor; [|exact U]. rewrite M.
-      destruct (fd_loop_safe dd calc kids (proj2 (Forall_forall _ _) (fun p _ => fd_item_safe dd calc p)) _ _ El) as (ND & _ & _).
+      destruct (fd_loop_safe dd calc kids (proj2 (Forall_forall _ _) (fun p _ => fd_item_safe dd calc p)) _ _ _ El) as (ND & _ & _).
       clear -ND. rewrite <- (map_map rdid Some). apply FinFun.Injective_map_NoDup; [|exact ND].
       intros a b H. now injection H.
   Qed.
@@ -805,16 +859,16 @@ Section Refusal.
     (forall e, from_dict dd calc next obj = inr e -> e = E_UNIQUE).
   Proof.
     intros WF. unfold from_dict, uniq_items. split; [split|].
-    - intros (f & E). destruct (fd_loop dd calc (map parse obj) []) as [f0|e] eqn:El; [|discriminate].
-      destruct (fd_loop_conv _ (proj2 (Forall_forall _ _) (fun p _ => fd_item_conv p)) _ _ El) as (M & U).
+    - intros (f & E). destruct (fd_loop dd calc (map parse obj) [] []) as [f0|e] eqn:El; [|discriminate].
+      destruct (fd_loop_conv _ (proj2 (Forall_forall _ _) (fun p _ => fd_item_conv p)) _ _ _ El) as (M & U).
       split; [|exact U]. rewrite M.
-      destruct (fd_loop_safe dd calc _ (proj2 (Forall_forall _ _) (fun p _ => fd_item_safe dd calc p)) _ _ El) as (ND & _ & _).
+      destruct (fd_loop_safe dd calc _ (proj2 (Forall_forall _ _) (fun p _ => fd_item_safe dd calc p)) _ _ _ El) as (ND & _ & _).
       clear -ND. rewrite <- (map_map rdid Some). apply FinFun.Injective_map_NoDup; [|exact ND].
       intros a b H. now injection H.
     - intros (ND & U).
-      destruct (fd_loop_ok _ (proj2 (Forall_forall _ _) (fun p _ => fd_item_ok p)) WF U ND []) as (f & E & _); [intros x _ []|].
+      destruct (fd_loop_ok _ (proj2 (Forall_forall _ _) (fun p _ => fd_item_ok p)) WF U ND [] []) as (f & E & _); [intros x _ []|].
       rewrite E. eexists. reflexivity.
-    - intros e E. destruct (fd_loop dd calc (map parse obj) []) as [f0|e0] eqn:El; [discriminate|].
+    - intros e E. destruct (fd_loop dd calc (map parse obj) [] []) as [f0|e0] eqn:El; [discriminate|].
       injection E as <-. eapply fd_loop_err; [|exact WF|exact El].
       apply Forall_forall. intros p _. apply fd_item_err.
   Qed.
@@ -855,48 +909,52 @@ Qed.
 
 (* ------------------------------------------------------------------ *)
 (* Specification 3: a tree is built from a decoded item: payload = the decoded
-   data with the item's effective id, children built from the child items in
-   order.  from_dict on ANY input, when it succeeds, builds exactly that. *)
+   data with the item's effective id (and its explicit node_id, if any),
+   children built from the child items in order.  from_dict on ANY input, when it succeeds, builds exactly that. *)
 Section Built.
   Variables (dd : dmapper) (calc : info -> res did).
 
   Inductive built : pt -> rt -> Prop :=
-  | built_node : forall d kids i dv id ch,
+  | built_node : forall d kids i dv nid id ch,
       dd d = inl i -> did_for calc (dget k_data_id d) i = inl dv ->
-      Forall2 built kids ch -> built (PT d kids) (T id (mk_info i dv) ch).
+      nid_of (dget k_node_id d) = inl nid ->
+      Forall2 built kids ch -> built (PT d kids) (T id (mk_info i dv nid) ch).
 
-  Definition built_goal (p : pt) : Prop := forall seen t, fd_item dd calc p seen = inl t -> built p t.
+  Definition built_goal (p : pt) : Prop := forall seen used t, fd_item dd calc p seen used = inl t -> built p t.
 
   Lemma fd_loop_built : forall l, Forall built_goal l ->
-    forall seen f, fd_loop dd calc l seen = inl f -> Forall2 built l f.
+    forall seen used f, fd_loop dd calc l seen used = inl f -> Forall2 built l f.
   Proof.
-    induction l as [|p ps IH]; intros HP seen f E.
+    induction l as [|p ps IH]; intros HP seen used f E.
     - cbn in E. injection E as <-. constructor.
     - inversion HP as [|p0 ps0 Pp Pps]; subst. cbn [fd_loop] in E.
-      destruct (fd_item dd calc p seen) as [t|e] eqn:E1; [|discriminate].
-      destruct (fd_loop dd calc ps (seen ++ [rdid t])) as [ts|e] eqn:E2; [|discriminate].
+      destruct (fd_item dd calc p seen used) as [t|e] eqn:E1; [|discriminate].
+      destruct (fd_loop dd calc ps (seen ++ [rdid t]) (used ++ nids p)) as [ts|e] eqn:E2; [|discriminate].
       injection E as <-. constructor; [eapply Pp; eassumption|eapply IH; eassumption].
+  Qed.
+
+  Lemma nid_check_of o used nid : nid_check o used = inl nid -> nid_of o = inl nid.
+  Proof.
+    unfold nid_check. destruct (nid_of o) as [[z|]|e]; try discriminate.
+    - destruct (Z.eqb z 0 || existsb (Z.eqb z) used); [discriminate|]. intros H. exact H.
+    - intros H. exact H.
   Qed.
 
   Lemma fd_item_built : forall p, built_goal p.
   Proof.
-    induction p as [|d kids IH] using pt_ind'; intros seen t E.
+    induction p as [|d kids IH] using pt_ind'; intros seen used t E.
     - discriminate.
-    - rewrite fd_item_PT in E.
-      destruct (dd d) as [i0|e] eqn:E1; [|discriminate].
-      destruct (did_for calc (dget k_data_id d) i0) as [dv|e] eqn:E2; [|discriminate].
-      destruct (existsb (did_eqb dv) seen); [discriminate|].
-      destruct (fd_loop dd calc kids []) as [ch|e] eqn:El; [|discriminate].
-      injection E as <-. econstructor; [exact E1|exact E2|]. eapply fd_loop_built; eassumption.
+    - apply fd_item_PT_ok in E as (i0 & dv & nid & ch & E1 & E2 & E3 & Ex & El & ->).
+      econstructor; [exact E1|exact E2|eapply nid_check_of; exact E3|]. eapply fd_loop_built; eassumption.
   Qed.
 
   Lemma built_eqv : forall p t, built p t -> forall t', eqv t t' -> built p t'.
   Proof.
     induction p as [|d kids IH] using pt_ind'; intros t B t' Q.
     - inversion B.
-    - inversion B as [d0 k0 i dv id ch E1 E2 F]; subst.
+    - inversion B as [d0 k0 i dv nid id ch E1 E2 E3 F]; subst.
       inversion Q as [id0 i0 ch0 id' ch' Fq]; subst.
-      econstructor; [exact E1|exact E2|].
+      econstructor; [exact E1|exact E2|exact E3|].
       clear -IH F Fq. revert ch' Fq. induction F as [|k c ks cs Hkc _ IHF]; intros ch' Fq.
       + inversion Fq; subst. constructor.
       + inversion Fq as [|c0 c' cs0 cs' Hc Hcs]; subst. inversion IH as [|k0 ks0 Hk Hks]; subst.
@@ -905,9 +963,9 @@ Section Built.
 
   Theorem from_dict_built next obj f : from_dict dd calc next obj = inl f -> Forall2 built (map parse obj) f.
   Proof.
-    unfold from_dict. destruct (fd_loop dd calc (map parse obj) []) as [f0|e] eqn:E; [|discriminate].
+    unfold from_dict. destruct (fd_loop dd calc (map parse obj) [] []) as [f0|e] eqn:E; [|discriminate].
     intros H. injection H as <-.
-    pose proof (fd_loop_built _ (proj2 (Forall_forall _ _) (fun p _ => fd_item_built p)) _ _ E) as B.
+    pose proof (fd_loop_built _ (proj2 (Forall_forall _ _) (fun p _ => fd_item_built p)) _ _ _ E) as B.
     pose proof (renum_forest_eqv f0 next) as Q.
     clear -B Q. revert Q. generalize (fst (renum_f next f0)). induction B as [|p t ps ts Hpt _ IH]; intros g Q.
     - inversion Q; subst. constructor.
@@ -936,7 +994,7 @@ Section Canonical.
     induction t as [id i ch IH] using rt_ind'. intros j C B.
     inversion C as [s i0 idpart chpart Ed En Hh Hid Hch]; subst j.
     rewrite parse_dict in B.
-    inversion B as [d0 k0 i1 dv id1 ch1 E1 E2 F]; subst.
+    inversion B as [d0 k0 i1 dv nid id1 ch1 E1 E2 E3 F]; subst.
     change ([(k_data, JStr (i_name i0))] ++ idpart ++ chpart) with ((k_data, JStr (i_name i0)) :: idpart ++ chpart) in *.
     rewrite Ed in E1. injection E1 as <-.
     rewrite to_dict_plain_exact. cbn [i_name i_did i_hash mk_info]. apply f_equal.
